@@ -2,8 +2,9 @@
 //
 // A case is a pool of inputs (documents: valid 2.0 / 1.x / almost valid / garbage; API-built models: analysable, generic,
 // broken; an import forest registered with Importer::addModel) and a history of 2-12 service calls over them, one of which is
-// the probe. Nothing of libCellML or libxml2 is ever called in the worker process itself: every execution happens in a forked
-// child, so that process-global state is exactly what the executed calls made it (no xmlKeepBlanksDefault() reset anywhere).
+// the probe. Nothing of libCellML or libxml2 is ever called in the worker process itself: every execution happens in a child
+// process spawned from this binary (new address space, same allocator state every time), so that process-global state is
+// exactly what the executed calls made it (no xmlKeepBlanksDefault() reset anywhere).
 //   run F : a fresh process executes only the probe's dependency slice (what is needed to build its arguments), the probe on
 //           a new instance                                                                                        -> (i)
 //   run H : a fresh process executes the whole history, instances shared between calls unless the plan says "new"; the probe
@@ -17,8 +18,12 @@
 #include <chrono>
 #include <cstring>
 #include <functional>
+#include <fcntl.h>
+#include <spawn.h>
 #include <sys/wait.h>
 #include <unistd.h>
+
+extern char **environ;
 
 #include "c12_amdump.h"
 #include "gen.h"
@@ -80,6 +85,7 @@ struct CaseData
     std::vector<LibEntry> lib;
     std::vector<Op> ops;
     int probe = 0;
+    long excludedMalformedFlatten = 0;
     std::vector<char> slice; // ops the probe depends on (including itself)
 };
 
@@ -247,7 +253,9 @@ GenOpts smallGen()
 }
 
 // A model that fails validation: an analysable model with one well-defined defect.
-void breakSpec(ModelSpec &s, Src &src, std::string &how)
+const unsigned kBreakMalformedMath = 4;
+
+void breakSpec(ModelSpec &s, Src &src, unsigned breakKind, std::string &how)
 {
     std::vector<std::pair<size_t, size_t>> vars;
     for (size_t c = 0; c < s.comps.size(); ++c) {
@@ -262,7 +270,12 @@ void breakSpec(ModelSpec &s, Src &src, std::string &how)
     }
     auto pv = src.pick(vars);
     VarSpec &v = s.comps[pv.first].vars[pv.second];
-    switch (src.below(4)) {
+    switch (breakKind) {
+    case kBreakMalformedMath:
+        // cannot come out of the parser, only out of Component::setMath(): the printer reports it
+        s.comps[pv.first].math.push_back("<math xmlns=\"http://www.w3.org/1998/Math/MathML\"><apply><eq/><ci>" + v.name + "</ci></math>");
+        how = "math that is not well-formed XML";
+        break;
     case 0:
         v.units = "undefined_units_x";
         how = "variable with undefined units";
@@ -284,7 +297,7 @@ void breakSpec(ModelSpec &s, Src &src, std::string &how)
 
 struct PoolPlan
 {
-    std::vector<unsigned> docKinds, modelKinds;
+    std::vector<unsigned> docKinds, modelKinds, modelBreaks;
     bool forest = false;
 };
 
@@ -321,6 +334,7 @@ CaseData generate(Src &src)
     // model kinds: 0 analysable, 1 generic valid, 2 broken (fails validation), 3 forest root
     for (size_t i = 0; i < nModels; ++i) {
         pp.modelKinds.push_back(static_cast<unsigned>(src.below(pp.forest ? 4 : 3)));
+        pp.modelBreaks.push_back(pp.modelKinds.back() == 2 ? static_cast<unsigned>(src.below(5)) : 0);
     }
 
     // ---- history
@@ -422,6 +436,23 @@ CaseData generate(Src &src)
             }
             if (cands.empty()) {
                 cands = modelCandidates(i, any);
+            }
+            if (op.svc == FLATTEN) {
+                // Known crash outside this property (reported in notes/C12.md): Model::isDefined(), reached from flattenModel(),
+                // calls a method on a null XmlNode when a component's math is not well-formed XML. Excluded by construction.
+                auto isMalformed = [&](const std::pair<int, int> &cnd) { return cnd.first == 0 && pp.modelKinds[static_cast<size_t>(cnd.second)] == 2 && pp.modelBreaks[static_cast<size_t>(cnd.second)] == kBreakMalformedMath; };
+                size_t before = cands.size();
+                cands.erase(std::remove_if(cands.begin(), cands.end(), isMalformed), cands.end());
+                if (cands.size() != before) {
+                    ++cd.excludedMalformedFlatten;
+                }
+                if (cands.empty()) {
+                    op.svc = VALIDATE;
+                    if (isProbe) {
+                        probeSvc = VALIDATE;
+                    }
+                    cands = modelCandidates(i, any);
+                }
             }
             auto pick = cands[src.below(cands.size())];
             op.refKind = pick.first;
@@ -589,7 +620,7 @@ CaseData generate(Src &src)
         case 2: {
             m.spec = genGroundTruthModel(src, smallGt(2)).spec;
             std::string how;
-            breakSpec(m.spec, src, how);
+            breakSpec(m.spec, src, pp.modelBreaks[i], how);
             m.kind = "broken: " + how;
             m.issueProne = true;
             break;
@@ -1110,7 +1141,7 @@ struct Exec
                 } else if (r.am != nullptr) {
                     std::string code = codeFromNewGenerator(r.am);
                     if (code != r.heldAmCode) {
-                        fail("C12.held-result|Generator code from a held AnalyserModel", "op" + std::to_string(i) + ": " + firstDiff(r.heldAmCode, code));
+                        fail("C12.held-result|Generator-code-from-held-AnalyserModel", "op" + std::to_string(i) + ": " + firstDiff(r.heldAmCode, code));
                     }
                 }
             }
@@ -1119,7 +1150,7 @@ struct Exec
         if (sharedGeneratorOp >= 0 && generator != nullptr && changedAms.count(generator->model().get()) == 0) {
             std::string again = generateCode(generator, sharedGeneratorPython);
             if (again != sharedGeneratorLast) {
-                fail("C12.held-result|Generator holding an AnalyserModel", "the shared Generator (model set by op" + std::to_string(sharedGeneratorOp) + ") now produces different code: " + firstDiff(sharedGeneratorLast, again));
+                fail("C12.held-result|Generator-holding-AnalyserModel", "the shared Generator (model set by op" + std::to_string(sharedGeneratorOp) + ") now produces different code: " + firstDiff(sharedGeneratorLast, again));
             }
         }
     }
@@ -1402,7 +1433,15 @@ struct Judge
                 break;
             }
             if (cd.slice[i] != 0 && static_cast<int>(i) != probe) {
-                goOn = compareOp("C12.history", F, "F", H, "H", static_cast<int>(i), "a dependency of the probe, executed in a fresh process vs at its place in the history", tainted);
+                // a dependency that runs on a shared instance used before differs from run F in process history and in
+                // instance history: the signature says so
+                const Op &o = cd.ops[i];
+                bool usedBefore = false;
+                for (size_t k = 0; k < i && !o.fresh; ++k) {
+                    const Op &e = cd.ops[k];
+                    usedBefore = usedBefore || (!e.fresh && (e.svc == FLATTEN ? RESOLVE : e.svc) == (o.svc == FLATTEN ? RESOLVE : o.svc));
+                }
+                goOn = compareOp(usedBefore ? "C12.history+instance" : "C12.history", F, "F", H, "H", static_cast<int>(i), "a dependency of the probe, executed in a fresh process vs at its place in the history", tainted);
             }
         }
         // (i) vs (iii): new instance in a fresh process vs new instance after the history -> process-global state
@@ -1429,18 +1468,153 @@ struct Judge
     }
 };
 
-int runChild(const CaseData &cd, bool full, std::string &stream)
+// ---- children are new processes (posix_spawn of this very binary), not forks of the worker: what a library call does may
+// depend on where the allocator places objects (containers ordered by pointer value), and a fork inherits the worker's heap,
+// which differs from case to case and between a worker and a replay. A spawned child starts from the same allocator state
+// every time, so a case is a function of its tape alone. The child regenerates the case from the recorded choice sequence.
+
+struct RecSrc: Src
 {
-    ChildArg a {&cd, full};
-    return runIsolated(childMain, &a, 100, &stream);
+    Src &inner;
+    std::vector<uint64_t> choices;
+    explicit RecSrc(Src &s)
+        : inner(s)
+    {
+    }
+    bool exhausted() const override { return inner.exhausted(); }
+protected:
+    uint64_t raw(uint64_t n) override
+    {
+        uint64_t v = inner.below(n);
+        choices.push_back(v);
+        return v;
+    }
+};
+
+struct ChoiceSrc: Src
+{
+    std::vector<uint64_t> choices;
+    size_t pos = 0;
+    bool exhausted() const override { return pos >= choices.size(); }
+protected:
+    uint64_t raw(uint64_t n) override
+    {
+        uint64_t v = pos < choices.size() ? choices[pos] : 0;
+        ++pos;
+        return v % n;
+    }
+};
+
+// property.init hook: with C12_CHILD set this process is a child; it never returns to the driver.
+void childEntry()
+{
+    const char *mode = getenv("C12_CHILD");
+    if (mode == nullptr) {
+        return;
+    }
+    alarm(150);
+    ChoiceSrc src;
+    {
+        std::string in;
+        char buf[8192];
+        ssize_t n;
+        while ((n = read(0, buf, sizeof buf)) > 0) {
+            in.append(buf, static_cast<size_t>(n));
+        }
+        src.choices.resize(in.size() / sizeof(uint64_t));
+        if (!src.choices.empty()) {
+            memcpy(src.choices.data(), in.data(), src.choices.size() * sizeof(uint64_t));
+        }
+    }
+    CaseData cd = generate(src);
+    ChildArg a {&cd, mode[0] == 'H'};
+    childMain(&a);
+    fflush(nullptr);
+    _exit(0);
 }
 
-void run(Src &src, Case &c)
+int runChild(const std::vector<uint64_t> &choices, bool full, std::string &stream)
 {
+    int in[2], err[2];
+    if (pipe(in) != 0) {
+        return -1;
+    }
+    if (pipe(err) != 0) {
+        close(in[0]);
+        close(in[1]);
+        return -1;
+    }
+    posix_spawn_file_actions_t fa;
+    posix_spawn_file_actions_init(&fa);
+    posix_spawn_file_actions_adddup2(&fa, in[0], 0);
+    posix_spawn_file_actions_adddup2(&fa, err[1], 2);
+    posix_spawn_file_actions_addclose(&fa, in[1]);
+    posix_spawn_file_actions_addclose(&fa, err[0]);
+    posix_spawn_file_actions_addopen(&fa, 1, "/dev/null", O_WRONLY, 0);
+    std::vector<std::string> envs;
+    for (char **e = environ; *e != nullptr; ++e) {
+        if (strncmp(*e, "C12_CHILD=", 10) != 0) {
+            envs.push_back(*e);
+        }
+    }
+    envs.push_back(full ? "C12_CHILD=H" : "C12_CHILD=F");
+    std::vector<char *> envp;
+    for (auto &e : envs) {
+        envp.push_back(&e[0]);
+    }
+    envp.push_back(nullptr);
+    char a0[] = "/proc/self/exe", a1[] = "--mode", a2[] = "c12child";
+    char *argv[] = {a0, a1, a2, nullptr};
+    pid_t pid = 0;
+    int rc = posix_spawn(&pid, "/proc/self/exe", &fa, nullptr, argv, envp.data());
+    posix_spawn_file_actions_destroy(&fa);
+    close(in[0]);
+    close(err[1]);
+    if (rc != 0) {
+        close(in[1]);
+        close(err[0]);
+        return -1;
+    }
+    {
+        // at most a few thousand choices: fits the pipe buffer more often than not, and the child reads before it writes
+        const char *d = reinterpret_cast<const char *>(choices.data());
+        size_t len = choices.size() * sizeof(uint64_t), off = 0;
+        while (off < len) {
+            ssize_t n = write(in[1], d + off, len - off);
+            if (n <= 0) {
+                break;
+            }
+            off += static_cast<size_t>(n);
+        }
+        close(in[1]);
+    }
+    stream.clear();
+    char buf[16384];
+    ssize_t n;
+    while ((n = read(err[0], buf, sizeof buf)) > 0) {
+        if (stream.size() < (8u << 20)) {
+            stream.append(buf, static_cast<size_t>(n));
+        }
+    }
+    close(err[0]);
+    int st = 0;
+    waitpid(pid, &st, 0);
+    if (WIFEXITED(st)) {
+        return WEXITSTATUS(st);
+    }
+    return WIFSIGNALED(st) ? 1000 + WTERMSIG(st) : -1;
+}
+
+void run(Src &tapeSrc, Case &c)
+{
+    RecSrc src(tapeSrc);
     CaseData cd = generate(src);
     c.text = describe(cd);
     c.hash = hashStr(c.text);
     c.weight = c.text.size();
+    if (cd.excludedMalformedFlatten != 0) {
+        c.count("excluded:ubsan:null-pointer-use|libcellml::findComponentCnUnitsNames(flattenModel of a model with malformed math)", cd.excludedMalformedFlatten);
+    }
 
     const int probe = cd.probe;
     const Op &pop = cd.ops[static_cast<size_t>(probe)];
@@ -1510,7 +1684,7 @@ void run(Src &src, Case &c)
     Judge j {cd, c, {}, {}, {}};
     std::string sf, sh;
     auto t0 = std::chrono::steady_clock::now();
-    int rf = runChild(cd, false, sf);
+    int rf = runChild(src.choices, false, sf);
     auto t1 = std::chrono::steady_clock::now();
     c.count("ms:run-F", static_cast<long>(std::chrono::duration_cast<std::chrono::milliseconds>(t1 - t0).count()));
     parseStream(sf, j.F);
@@ -1520,7 +1694,7 @@ void run(Src &src, Case &c)
         c.fail(std::string("C12.crash|") + (op >= 0 ? kSvc[cd.ops[static_cast<size_t>(op)].svc] : "?") + "|fresh-process", "run F ended with status " + std::to_string(rf) + " in op" + std::to_string(op) + "\n" + sf.substr(sf.size() > 4000 ? sf.size() - 4000 : 0));
         return;
     }
-    int rh = runChild(cd, true, sh);
+    int rh = runChild(src.choices, true, sh);
     c.count("ms:run-H+N", static_cast<long>(std::chrono::duration_cast<std::chrono::milliseconds>(std::chrono::steady_clock::now() - t1).count()));
     parseStream(sh, j.H);
     if (rh != 0 || j.H.ended.count("H") == 0 || j.H.ended.count("N") == 0 || j.H.nDied) {
@@ -1530,6 +1704,20 @@ void run(Src &src, Case &c)
         return;
     }
     j.run();
+    // Every failed oracle is in c.alsoFailed so that a listed finding does not hide an unlisted one. The case itself fails
+    // with the first unlisted signature, or - when all are listed - with the first listed one (replays then say so).
+    if (!c.alsoFailed.empty()) {
+        size_t pick = 0;
+        for (size_t k = 0; k < c.alsoFailed.size(); ++k) {
+            if (knownFindingIndex("C12", c.alsoFailed[k].first) < 0) {
+                pick = k;
+                break;
+            }
+        }
+        auto f = c.alsoFailed[pick];
+        c.alsoFailed.erase(c.alsoFailed.begin() + static_cast<long>(pick));
+        c.fail(f.first, f.second);
+    }
 
     // classes known after execution
     for (const auto &kv : j.H.info) {
@@ -1563,6 +1751,14 @@ void run(Src &src, Case &c)
 
 } // namespace
 
+// Every case forks three times; the cost of fork() grows with the resident set of the worker, most of which is ASan's
+// quarantine of freed memory (256 MiB by default). A small quarantine keeps forking cheap; it does not weaken detection in
+// the short-lived children. (ASAN_OPTIONS from the environment still override this.)
+extern "C" const char *__asan_default_options()
+{
+    return "quarantine_size_mb=8";
+}
+
 namespace vp {
 Property property = {
     "C12",
@@ -1580,5 +1776,6 @@ Property property = {
      "import resolution uses Importer::addModel libraries only; the base path does not exist, so no file is ever read",
      "a difference between two observations that disappears when MathML is canonicalised and that follows a Printer::printModel call is attributed to the listed finding (xmlKeepBlanksDefault(0) left behind)",
      "the issue list, not Issue objects handed out earlier, is the observed result of a call"},
+    childEntry, // with C12_CHILD in the environment this process executes one case and exits
 };
 }
